@@ -143,19 +143,47 @@ class _P:
         j = self.i
         b = self.b
         depth = 0
+        pdepth = 0
         while j < len(b):
             c = b[j]
             if depth:
                 if c in (0x0D, 0x0A):
                     raise SyntaxErr("CR/LF inside [section]")
+                if c == 0x22:
+                    # a header field name written as a quoted string (header-fld-name = astring): it may hold ] ( ) and SP
+                    j += 1
+                    while True:
+                        if j >= len(b):
+                            raise SyntaxErr("unterminated quoted string inside [section]")
+                        q = b[j]
+                        if q in (0x0D, 0x0A):
+                            raise SyntaxErr("CR/LF inside [section]")
+                        if q == 0x5C:
+                            if j + 1 >= len(b) or b[j + 1] not in (0x22, 0x5C):
+                                raise SyntaxErr("bad escape in a quoted string inside [section]")
+                            j += 2
+                            continue
+                        j += 1
+                        if q == 0x22:
+                            break
+                    continue
+                if c == 0x28:
+                    pdepth += 1
+                elif c == 0x29:
+                    pdepth -= 1
+                    if pdepth < 0:
+                        raise SyntaxErr("unbalanced ) inside [section]")
                 if c == 0x5B:
                     depth += 1
                 elif c == 0x5D:
                     depth -= 1
+                    if depth == 0 and pdepth != 0:
+                        raise SyntaxErr("unbalanced ( inside [section]")
                 j += 1
                 continue
             if c == 0x5B:  # '[' -- section spec may contain SP and parens
                 depth = 1
+                pdepth = 0
                 j += 1
                 continue
             if c == 0x5D:
@@ -255,6 +283,19 @@ class _P:
                     code.append(Atom(self.b[self.i : j].decode("latin-1")))
                     self.i = j
             r.code = code
+            # resp-text-code: one SP between the atoms; the codes with a fixed shape are checked (RFC 3501 7.1, RFC 4315)
+            raw_code = self.b[: self.i]
+            if b"  " in raw_code[raw_code.rfind(b"["):] or raw_code.endswith(b" ]"):
+                raise SyntaxErr("response code: empty argument / doubled space")
+            name = str(code[0]).upper() if code and isinstance(code[0], Atom) else ""
+            args = [str(x) for x in code[1:]]
+            uidset = re.compile(r"^\d+(:\d+)?(,\d+(:\d+)?)*$")
+            if name in ("UIDVALIDITY", "UIDNEXT", "UNSEEN") and not (len(args) == 1 and args[0].isdigit() and int(args[0]) > 0):
+                raise SyntaxErr(f"response code {name}: one nz-number expected")
+            if name == "APPENDUID" and not (len(args) == 2 and args[0].isdigit() and uidset.match(args[1])):
+                raise SyntaxErr("response code APPENDUID: uidvalidity and uid-set expected")
+            if name == "COPYUID" and not (len(args) == 3 and args[0].isdigit() and uidset.match(args[1]) and uidset.match(args[2])):
+                raise SyntaxErr("response code COPYUID: uidvalidity and two uid-sets expected")
             if self.peek() == 0x20:
                 self.i += 1
         r.text = self.text_to_eol()
